@@ -662,7 +662,113 @@ theorem indices_in_range (v : Variant) (s : State) (hr : Reachable v s) :
     obtain ⟨⟨x, hx, _⟩, _⟩ := hA.vPut sw h h' w todo hrun
     exact (List.getElem?_eq_some_iff.mp hx).1
 
-/-- with a best connection chosen initially (which `addConnection` guarantees for a non-empty pool) no waiter ever
+/-! ### pool start-up (`addConnection`) -/
+
+theorem insertId_mem (id x : Nat) (l : List Nat) : x ∈ insertId id l ↔ x = id ∨ x ∈ l := by
+  induction l with
+  | nil => simp [insertId]
+  | cons y ys ih =>
+    unfold insertId
+    split
+    · simp
+    · simp only [List.mem_cons, ih]
+      constructor
+      · rintro (h | h | h)
+        · exact Or.inr (Or.inl h)
+        · exact Or.inl h
+        · exact Or.inr (Or.inr h)
+      · rintro (h | h | h)
+        · exact Or.inr (Or.inl h)
+        · exact Or.inl h
+        · exact Or.inr (Or.inr h)
+
+theorem insertId_sorted (id : Nat) (l : List Nat) (h : l.Pairwise (· ≤ ·)) : (insertId id l).Pairwise (· ≤ ·) := by
+  induction l with
+  | nil => simp [insertId]
+  | cons y ys ih =>
+    unfold insertId
+    split
+    · rename_i hlt
+      refine List.Pairwise.cons ?_ h
+      intro z hz
+      rcases List.mem_cons.mp hz with rfl | hz
+      · omega
+      · have := (List.pairwise_cons.mp h).1 z hz; omega
+    · rename_i hge
+      refine List.Pairwise.cons ?_ (ih (List.pairwise_cons.mp h).2)
+      intro z hz
+      rcases (insertId_mem id z ys).mp hz with rfl | hz
+      · omega
+      · exact (List.pairwise_cons.mp h).1 z hz
+
+/-- **start_order_and_best**: whatever the order in which the connections arrive, `addConnection` leaves the members
+ordered by id — the configuration order the property's first-working clause speaks about — containing exactly the
+connections that arrived, and the initial best connection is the FIRST one that arrived: a pool with at least one
+member has a best connection before its first refresh (hypothesis `best = some c` of `no_nil_deref`,
+`Reachable.init`). Tied to the source by `PoolConsts.addConnection_ok`; the real `addConnection` is executed by every
+pool the harness builds (`pool.start`, `go.pool.order`). -/
+theorem start_order_and_best (arrival : List Nat) :
+    (startPool arrival).1.Pairwise (· ≤ ·) ∧ (∀ x, x ∈ (startPool arrival).1 ↔ x ∈ arrival) ∧
+    (startPool arrival).2 = arrival.head? := by
+  have gen : ∀ (st : List Nat × Option Nat), st.1.Pairwise (· ≤ ·) → (st.1 = [] → st.2 = none) →
+      (st.1 ≠ [] → st.2 ≠ none) →
+      (arrival.foldl addConn st).1.Pairwise (· ≤ ·) ∧
+      (∀ x, x ∈ (arrival.foldl addConn st).1 ↔ x ∈ st.1 ∨ x ∈ arrival) ∧
+      (arrival.foldl addConn st).2 = (if st.1 = [] then arrival.head? else st.2) := by
+    induction arrival with
+    | nil =>
+      intro st hs h0 _
+      refine ⟨hs, by simp, ?_⟩
+      by_cases hl : st.1 = []
+      · simp [hl, h0 hl]
+      · simp [hl]
+    | cons a as ih =>
+      intro st hs h0 h1
+      have hne : insertId a st.1 ≠ [] := by
+        intro hh
+        have := (insertId_mem a a st.1).mpr (Or.inl rfl)
+        rw [hh] at this; cases this
+      have hlen : (insertId a st.1).length = 1 ↔ st.1 = [] := by
+        cases hl : st.1 with
+        | nil => simp [insertId]
+        | cons y ys =>
+          simp only [insertId]
+          split <;> simp
+          · have := (insertId_mem a a ys).mpr (Or.inl rfl)
+            intro hh; rw [hh] at this; cases this
+      obtain ⟨r1, r2, r3⟩ := ih (addConn st a) (insertId_sorted a st.1 hs) (fun hh => absurd hh hne)
+        (fun _ => by
+          simp only [addConn]
+          split
+          · simp
+          · rename_i hnl; exact h1 (fun hh => hnl (hlen.mpr hh)))
+      refine ⟨by simpa [List.foldl_cons] using r1, ?_, ?_⟩
+      · intro x
+        rw [List.foldl_cons, r2]
+        simp only [addConn, insertId_mem, List.mem_cons]
+        constructor
+        · rintro ((h | h) | h)
+          · exact Or.inr (Or.inl h)
+          · exact Or.inl h
+          · exact Or.inr (Or.inr h)
+        · rintro (h | h | h)
+          · exact Or.inl (Or.inr h)
+          · exact Or.inl (Or.inl h)
+          · exact Or.inr h
+      · rw [List.foldl_cons, r3]
+        simp only [addConn, hne, if_false]
+        by_cases hl : st.1 = []
+        · have h1' := hlen.mpr hl
+          simp only [hl, if_true, List.head?_cons]
+          rw [hl] at h1'
+          simp [h1']
+        · simp [hl, mt hlen.mp hl]
+  obtain ⟨g1, g2, g3⟩ := gen ([], none) List.Pairwise.nil (fun _ => rfl) (fun h => absurd rfl h)
+  exact ⟨g1, by intro x; rw [show startPool arrival = arrival.foldl addConn ([], none) from rfl, g2]; simp,
+    by rw [show startPool arrival = arrival.foldl addConn ([], none) from rfl, g3]; simp⟩
+
+/-- with a best connection chosen initially (which `addConnection` guarantees for a non-empty pool:
+`start_order_and_best`, tied to the source by the regenerated obligation `PoolConsts.addConnection_ok`) no waiter ever
 dereferences a nil `bestConn`: `subscribe` does not panic. (On an EMPTY pool `WaitMasterchainSeqno` does panic —
 `p.bestConn.MasterHead()` on a nil interface; outside the property's quantifier, noted in the report.) -/
 theorem no_nil_deref (v : Variant) (heads : List Nat) (c : Nat) (targets : List Nat) (pubs : List (Nat × Nat))
